@@ -84,6 +84,7 @@ type Gen struct {
 	epoch    int
 	curBlock *ssa.BasicBlock
 	onlyProp string
+	rootTypes map[string]types.Type // array address term -> element type (modifies elems(x))
 	sccOf    map[string]int
 	frames   []havocFrame
 	siteSeen map[string]map[ssa.Instruction]int
